@@ -1169,6 +1169,8 @@ def mon_c03(case):
     identity: an update or a hit moves the same node to the front, an insertion into a full list recycles the least
     recently used node, an insertion with room links a node that was not linked before, nothing else moves"""
     kind = case["kind"]
+    if kind == 11:
+        return mon_c03_slru(case)
     if kind not in LAYOUT and kind != 9:
         return None
     prev = None
@@ -1315,6 +1317,69 @@ def mon_c18(case):
             code = snap[li]
             if code:
                 return step, where + f"after call {real[:4]}: list #{li // 3}: {WEAK_CODES.get(code, code)}"
+    return None
+
+
+def parse_hssnap(snap):
+    """kind 11: pc fc, then per list: n (k v name)*n and n index names; then wf -> ([ [(k,v,name)], ...], [[idx]...], wf)"""
+    if len(snap) < 5:
+        return None
+    i = 2
+    lists, idxs = [], []
+    for _ in range(2):
+        if i >= len(snap):
+            return None
+        n = snap[i]
+        i += 1
+        if n < 0 or i + 4 * n > len(snap):
+            return None
+        lists.append([(snap[i + 3 * j], snap[i + 3 * j + 1], snap[i + 3 * j + 2]) for j in range(n)])
+        i += 3 * n
+        idxs.append(list(snap[i:i + n]))
+        i += n
+    return lists, idxs, snap[i] if i < len(snap) else 1
+
+
+def mon_c03_slru(case):
+    """SegmentedCache at node level, on the implementation alone: both lists are audited chains matching their
+    indices, no node is in two lists, and node identity is kept across the lists: a key that is resident before and
+    after a call sits in the same node (promotion and demotion move nodes, they do not copy entries); a node that
+    appears is either new or the recycled node of a key that left"""
+    prev = None
+    for step, (op, out, cb, acct, snap) in enumerate(case["lines"], 1):
+        if not op or op[0] == 98 or out == [-1000]:
+            prev = None if out == [-1000] else prev
+            continue
+        if op[0] == 99:
+            if len(out) >= 6 and out[5]:
+                return step, "freed memory was written to (poison damaged)"
+            if len(out) >= 6 and out[4]:
+                return step, f"{out[4]} heap blocks of the cache were not freed when it was dropped"
+            continue
+        p = parse_hssnap(snap)
+        if p is None:
+            return step, "unreadable snapshot"
+        lists, idxs, wf = p
+        if wf != 1:
+            return step, f"after call {op[:4]} a list is not a well-formed chain matching its index (structural audit failed)"
+        names = [a for l in lists for _, _, a in l]
+        if len(set(names)) != len(names):
+            return step, f"after call {op[:4]} a node is linked in both lists or twice: {names}"
+        for l, ix in zip(lists, idxs):
+            if sorted(a for _, _, a in l) != ix:
+                return step, f"after call {op[:4]} the index nodes {ix} are not the linked nodes {sorted(a for _, _, a in l)}"
+        cur = {k: a for l in lists for k, _, a in l}
+        if prev is not None:
+            for k, a in cur.items():
+                if k in prev and prev[k] != a:
+                    return step, (f"call {op[:4]}: key {k} stayed resident but moved from node {prev[k]} to node {a} "
+                                  "(entries are moved between the lists by relinking their node, never by copying)")
+            gone = {a for k, a in prev.items() if k not in cur}
+            old_names = set(prev.values())
+            for k, a in cur.items():
+                if k not in prev and a in old_names and a not in gone:
+                    return step, f"call {op[:4]}: the new key {k} sits in node {a}, which still belongs to another resident key"
+        prev = cur
     return None
 
 def mon_c04(case):
